@@ -1,0 +1,26 @@
+// Copyright © 2022-2026 Obol Labs Inc. Licensed under the terms of a Business Source License 1.1
+
+//go:build verif
+
+// Verification contracts (comments only; read by /verif/govc, never compiled into charon).
+package parsigex
+
+//@ pure ParSigEx.verifyFunc ParSigEx.gaterFunc core.DutyFromProto core.ParSignedDataSetFromProto core.VerifyEth2SignedData
+//@ pure pbv1.ParSigExMsg.GetDuty pbv1.ParSigExMsg.GetDataSet
+
+//@ func (m *ParSigEx) handle
+//@ props C10 C01
+//@ callreq sub: a2 == duty && duty == core.DutyFromProto(pb.GetDuty()) && m.gaterFunc(duty)
+//@ callreq sub: a3 == set && res(1, core.ParSignedDataSetFromProto(duty.Type, pb.GetDataSet())) == nil && set == res(0, core.ParSignedDataSetFromProto(duty.Type, pb.GetDataSet()))
+//@ callreq sub: forallk(pk, set, m.verifyFunc(ctx, sender, duty, pk, set[pk]) == nil)
+//@ ensures r2 != nil ==> ncalls(sub) == 0
+//@ canary r2 != nil
+//@ loop 1 invariant forall(t, 0, $i, m.verifyFunc(ctx, sender, duty, $ks[t], set[$ks[t]]) == nil)
+//@ loop 1 invariant ncalls(sub) == 0
+//@ loop 2 invariant true
+
+//@ func NewEth2Verifier$1
+//@ props C10 C01
+//@ ensures result == nil ==> has(pubSharesByKey, pubkey) && has(pubSharesByKey[pubkey], data.ShareIdx)
+//@ ensures result == nil ==> core.VerifyEth2SignedData(ctx, eth2Cl, data.SignedData.(core.Eth2SignedData), pubSharesByKey[pubkey][data.ShareIdx]) == nil
+//@ canary result != nil
